@@ -229,6 +229,29 @@ func c11judge(c c11case) (kind, detail string, accepted bool) {
 			return "reject-mutates", "rejected permutation changed the step's JSON", got
 		}
 	} else if len(c.Perm) > 0 {
+		// the matrix is unchanged by an accepted permutation: the step then judges every other candidate as a fresh step would
+		// (the command no longer carries tokens, so only the verdict is looked at)
+		base := pipeline.MatrixPermutation{}
+		for _, d := range c.M.Dims {
+			if len(c.M.Setup[d]) > 0 {
+				base[d] = c.M.Setup[d][len(c.M.Setup[d])-1]
+			}
+		}
+		if len(base) == len(c.M.Dims) {
+			bp := map[string]string{}
+			for k, v := range base {
+				bp[k] = v
+			}
+			var err2 error
+			cmdBefore := st.Command
+			if pan := report.Catch(func() { err2 = st.InterpolateMatrixPermutation(base) }); pan != "" {
+				return "panic", "second permutation on the same step: " + pan, got
+			}
+			if (err2 == nil) != c11valid(c.M, bp) {
+				return "verdict-second-call", fmt.Sprintf("after the accepted permutation %v the same step judges %v: accepted=%v want %v (err=%v)", c.Perm, bp, err2 == nil, c11valid(c.M, bp), err2), got
+			}
+			st.Command = cmdBefore
+		}
 		wantCmd := "echo"
 		for _, d := range c.M.Dims {
 			wantCmd += " " + c.Perm[d]
